@@ -10,7 +10,7 @@
    byte-exact generator correspondence and judged on the reference machine. *)
 From Coq Require Import ZArith List String Bool.
 From Gigue Require Import Types Bits Isa Enc GenTables Builder BuilderTies Samplers Generator Machine MachineLemmas
-  SplitProofs FragProofs GenLemmas ImageSem CtorSpec C12Defs C12Proofs GenWF GenWFProps SliceLemmas GenWF2 GenWF3 GenWF4 GenWF2Props Witness.
+  SplitProofs FragProofs GenLemmas ImageSem CtorSpec C12Defs C12Proofs GenWF GenWFProps SliceLemmas GenWF2 GenWF3 GenWF4 GenWF2Props BodyExec BodyBridge GenWF5 FrameExec CodeMem SwitchExec GenWF7 Witness.
 Import ListNotations.
 Open Scope Z_scope.
 
@@ -45,6 +45,40 @@ Proof. exact call_sites_exact. Qed.
 Theorem C05_interpreter_calls_each_element_once : forall c script img,
   successful c script img -> int_ok c (im_methods img) (im_elements img) (im_int_instrs img).
 Proof. exact interpreter_calls_each_element_once. Qed.
+
+(* PROVED (Layer B for PICs; GenWF7 / SwitchExec / CodeMem): for every accepted
+   configuration, decision script and emitted image, and every PIC p whose jal
+   offsets fit (its case methods lie within +-1 MiB of their switch entries:
+   finding F6 is outside) and which has fewer than 2047 cases: put the EMITTED
+   WORDS of its switch table at its recorded address in code memory, enter with
+   the hit-case register holding h = 1 + k, k < cases: the reference machine -
+   fetching and decoding those bytes - runs exactly 2k + 3 steps (two per missed
+   case, three for the hit), never reaches the trailing ret, and arrives at the
+   RECORDED ADDRESS of case method h, with memory, dom, the CFI stack and every
+   register except the compare register unchanged.  Holds for any admissible
+   pair of hit / compare registers (cfg_ok). *)
+Theorem C05_pic_dispatch : forall c script img,
+  successful c script img ->
+  Forall (fun e => match e with
+    | EMethod _ => True
+    | EPic p =>
+      forall addrs,
+        Forall2 (fun id a => exists m, nth_error (im_methods img) id = Some m /\ m_addr m = a) (p_methods p) addrs ->
+        Z.of_nat (List.length addrs) < 2047 ->
+        Forall (fun mo => -1048576 <= mo < 1048576 /\ mo mod 2 = 0) (moffs_of (p_addr p) 0 addrs) ->
+        forall L s k a,
+          regions_ok L -> code_hi L < W64 ->
+          let P := p_addr p in let ws := map generate (p_switch p) in
+          code_at (mem s) P ws -> pc s = P -> P mod 4 = 0 -> code_lo L <= P ->
+          P + 4 * Z.of_nat (List.length ws) <= code_hi L ->
+          (halt_at L < P \/ P + 4 * Z.of_nat (List.length ws) <= halt_at L) ->
+          side_ok (gv c) L P (Z.of_nat (List.length ws)) (dom s) ->
+          nth_error addrs k = Some a -> 0 <= a < W64 -> rget s (c_hit_reg c) = 1 + Z.of_nat k ->
+          exists s', run (gv c) L (2 * k + 3) s = (Next s', (2 * k + 3)%nat) /\
+                     pc s' = a /\ mem s' = mem s /\ cfi s' = cfi s /\ dom s' = dom s /\
+                     (forall r, 0 <= r -> r <> c_cmp_reg c -> rget s' r = rget s r)
+    end) (im_elements img).
+Proof. exact pic_dispatch. Qed.
 
 Theorem C05_nonvacuous : exists img, successful wcfg_base wscript_base img.
 Proof. exact witness_base. Qed.
@@ -89,6 +123,7 @@ Print Assumptions C05_method_count.
 Print Assumptions C05_callee_counts.
 Print Assumptions C05_call_sites.
 Print Assumptions C05_interpreter_calls_each_element_once.
+Print Assumptions C05_pic_dispatch.
 Print Assumptions C05_nonvacuous.
 Print Assumptions C05_switch_hit_partial.
 Print Assumptions C05_switch_miss_partial.
